@@ -556,6 +556,9 @@ func (g *Gen) expr1(sc *scope, want string, depth int) Expr {
 			if g.chance(8) {
 				return g.nearPair()
 			}
+			if g.chance(10) {
+				return Binary{g.pick([]string{"==", "<"}), g.signedBoundary(), g.signedBoundary()}
+			}
 			op := g.pick([]string{"==", "!="})
 			ta, tb := g.anyType(), g.anyType()
 			if g.chance(2) {
@@ -601,6 +604,24 @@ func (g *Gen) nearPair() Expr {
 	op := g.pick([]string{"==", "!=", "<", "<=", ">", ">="})
 	g.count("expr.nearpair" + op)
 	return Binary{op, l, r}
+}
+
+// signedBoundary: a sign applied to an integer literal at the edge of the 64-bit range, in decimal and
+// hex, bare or in parentheses: 2^63 is no int literal, with or without a minus in front of it, and
+// -(2^63-1)-1 is the way to write the smallest int.
+func (g *Gen) signedBoundary() Expr {
+	sp := g.pick([]string{"9223372036854775807", "9223372036854775808", "0x7fffffffffffffff", "0x8000000000000000",
+		"9223372036854775806", "18446744073709551615", "0xffffffffffffffff", "4611686018427387904"})
+	var e Expr = Lit{"int", sp}
+	if g.chance(2) {
+		e = Paren{e}
+	}
+	e = Unary{g.pick([]string{"-", "-", "+"}), e}
+	if g.chance(3) {
+		e = Unary{"-", Paren{e}}
+	}
+	g.count("expr.signedboundary")
+	return e
 }
 
 func (g *Gen) stmts(sc *scope, n int, blockDepth int) []Stmt {
@@ -725,7 +746,7 @@ func (g *Gen) Program(nstmts int) []Stmt {
 	if g.chance(12) {
 		return g.bindFamily()
 	}
-	if g.chance(16) {
+	if g.chance(9) {
 		return g.declWalk()
 	}
 	if g.chance(14) {
@@ -788,26 +809,43 @@ func (g *Gen) scopeFamily() []Stmt {
 // name in between; the same declaration is fine when only the inner block had it), what
 // `var x = x + 1` reads, what a name means once the block that declared it has closed.
 func (g *Gen) declWalk() []Stmt {
+	// a small pool: the same spelling serves as variable, as field and as the type of an unnamed
+	// nested block (whose key in its parent is that spelling)
 	names := []string{g.pick(varNames)}
 	if g.chance(2) {
 		names = append(names, g.pick(varNames))
 	}
 	n := 0
-	lit := func() Expr { n++; return Lit{"int", fmt.Sprint(n)} }
+	lit := func() Expr { n++; return Lit{"int", fmt.Sprint(n + 1)} }
+	val := func() Expr {
+		if g.chance(5) {
+			return Lit{"nil", "nil"}
+		}
+		return lit()
+	}
 	var walk func(depth int, budget *int) []Stmt
 	walk = func(depth int, budget *int) []Stmt {
 		var out []Stmt
+		stmtOf := func(e Expr) Stmt {
+			if depth > 0 && g.chance(2) {
+				if _, isU := e.(Unary); isU {
+					e = Paren{e}
+				}
+				return ExprStmt{e}
+			}
+			return EvalStmt{e}
+		}
 		for *budget > 0 {
 			*budget--
 			nm := g.pick(names)
-			switch k := g.r.Intn(9); {
+			switch k := g.r.Intn(13); {
 			case k < 3:
 				var init Expr
 				switch g.r.Intn(3) {
 				case 0:
-					init = lit()
+					init = val()
 				case 1:
-					init = Binary{"+", Ident{nm}, lit()} // reads the outer one, if any
+					init = Binary{"+", Ident{nm}, lit()} // reads the outer one, variable or field, if any
 				}
 				out = append(out, VarStmt{nm, init})
 				g.count("declwalk.var")
@@ -815,7 +853,13 @@ func (g *Gen) declWalk() []Stmt {
 				if depth < 3 {
 					n++
 					body := walk(depth+1, budget)
-					out = append(out, DefStmt{g.pick([]string{"t", "u"}), fmt.Sprintf("%q", fmt.Sprintf("b%d", n)), body})
+					name := fmt.Sprintf("%q", fmt.Sprintf("b%d", n))
+					typ := g.pick([]string{"t", "u"})
+					if g.chance(2) {
+						// unnamed, and of a type spelled like one of the names: its key is that name
+						name, typ = "", nm
+					}
+					out = append(out, DefStmt{typ, name, body})
 					g.count("declwalk.block")
 				}
 			case k == 5:
@@ -824,20 +868,35 @@ func (g *Gen) declWalk() []Stmt {
 				}
 			case k == 6:
 				out = append(out, PrintStmt{Ident{nm}})
-			case k == 7:
-				if depth > 0 {
-					out = append(out, ExprStmt{Assign{nm, lit()}})
-				} else {
-					out = append(out, EvalStmt{Assign{nm, lit()}})
+			case k == 7 || k == 8:
+				out = append(out, stmtOf(Assign{nm, val()}))
+			case k == 9:
+				// a discarded short-circuit chain that ends in an assignment, then a read of the same name
+				cs := []Expr{Lit{"bool", "false"}, Lit{"bool", "true"}, Lit{"int", "0"}, Ident{g.pick(names)}}
+				c := cs[g.r.Intn(len(cs))]
+				op := g.pick([]string{"and", "or"})
+				out = append(out, stmtOf(Binary{op, c, Paren{Assign{nm, lit()}}}))
+				if g.chance(2) {
+					out = append(out, PrintStmt{Ident{nm}})
+				} else if depth > 0 {
+					out = append(out, ExprStmt{Assign{"k", Ident{nm}}})
 				}
+				g.count("declwalk.shortcircuit-assign")
+			case k == 10:
+				// the name compared with itself (whatever it denotes here)
+				out = append(out, PrintStmt{Binary{g.pick([]string{"==", "!="}), Ident{nm}, Ident{g.pick(names)}}})
 			default:
 				out = append(out, PrintStmt{Binary{"+", Ident{nm}, lit()}})
 			}
 		}
 		return out
 	}
-	b := 4 + g.r.Intn(12)
+	b := 4 + g.r.Intn(14)
 	g.count("declwalk")
+	if g.chance(2) {
+		// everything inside one block: names are fields there unless declared
+		return []Stmt{DefStmt{"srv", "", walk(1, &b)}}
+	}
 	return walk(0, &b)
 }
 
